@@ -1797,6 +1797,9 @@ def reference(d, applied, dt):
             if op[0] == 'E':
                 apply_edit(d['cls'], img, op)
                 continue
+            if op[0] == 'U':        # an earlier save of the history harmonised the header here
+                img.update_header()
+                continue
             try:
                 img.set_data_dtype(np.dtype(op[1]) if op[0] == 'D' else op[1])
             except Exception:
@@ -1950,6 +1953,8 @@ def oracle(case, out):
         if op[0] == 'OS':
             continue
         rres, rbytes = reference(d, applied, dt)
+        if any(o[0] == 'E' for o in applied) and not diff_state(rec['harm'], rec['after']):
+            applied.append(['U'])     # later references must harmonise at the same point of the edit sequence
         if rec['res'] == 'ok':
             if rres != 'ok':
                 return f'{desc}: save succeeded although a first clean save of a fresh identical image raises {rres}'
